@@ -34,6 +34,11 @@ MUTANTS = [
     ("C15-pad-modulus", "C15", "metacommands.py", "while len(characters) % 3 != 0:", "while len(characters) % 2 != 0:", 1),
     ("C15-limit", "C15", "metacommands.py", "if val >= 40:", "if val > 40:", 1),
     ("C15-table", "C15", "radix50.py", "XYZ$.%0123", "XYZ.$%0123", 1),
+    ("C09-relative-loses-rel", "C09", "insns.py", 'wait(operand.resolve(state) - state["rel_address"] - 2) % (2 ** 16)))\n', 'wait(operand.resolve(state) - 2) % (2 ** 16)))\n', 1),
+    ("C05-div-truncates", "C05", "operators.py", "        return a // b\n", "        return int(a / b)\n", 1),
+    ("C05-lsh-direction", "C05", "operators.py", "        return a >> -b\n", "        return a >> b\n", 1),
+    ("C05-precedence", "C05", "operators.py", '@operator("x & x", precedence=8', '@operator("x & x", precedence=3', 1),
+    ("C05-neg-shift-silent", "C05", "operators.py", "    if b >= 0:\n        return a * 2 ** b\n", "    if True:\n        return a * 2 ** abs(b)\n", 1),
     # negative controls: semantically neutral edits, every check must stay green
     ("NEG-rename-local", "C06", "metacommand_impl.py", "    value = wait(arg_token.resolve(state))\n\n    if not isinstance(value, int):", "    value = wait(arg_token.resolve(state))\n    _unused = 1\n\n    if not isinstance(value, int):", 0),
     ("NEG-comment-lines", "C01", "insns.py", "def try_as_register(operand, state):", "# a comment\n\ndef try_as_register(operand, state):", 0),
